@@ -29,4 +29,9 @@ impl ExitStatus {
     pub fn success(&self) -> (r: bool)
         ensures r == self.ok(),
     { unimplemented!() }
+    /// `code()`: Some(0) exactly for success; None when the process was terminated by a signal
+    #[verifier::external_body]
+    pub fn code(&self) -> (r: Option<i32>)
+        ensures r matches Some(c) ==> (c == 0) == self.ok(), r is None ==> !self.ok(),
+    { unimplemented!() }
 }
